@@ -5,6 +5,7 @@
    Definitions only. *)
 From Coq Require Import String.
 From Coq Require Import List Bool Arith.
+From Asphalt Require Import Gen.Gen_addres.
 Import ListNotations.
 Open Scope string_scope.
 Open Scope list_scope.
@@ -220,6 +221,58 @@ Definition get_resources (x : ctx) (t : ty) : list (string * value) :=
   flat_map (fun kc => if existsb (Nat.eqb t) (ctypes (snd kc)) then [(cname (snd kc), cvalue (snd kc))] else [])
            (res x).
 
+
+(* add_resource / add_resource_factory: interpreters over the stages of the two methods in the order in
+   which they stand in the source on this run (Gen/Gen_addres.v).  A check that fails returns the context AS
+   IT IS AT THAT POINT -- with whatever the stages before it have already done. *)
+Fixpoint run_add (st : list add_stage) (x : ctx) (v : option nat) (types_ : list ty) (name : string)
+                 (desc : option nat) (cb : cbarg) : ctx * out :=
+  match st with
+  | [] => (x, OK)
+  | A_types_valid :: r =>
+      if negb (forallb ty_is_class types_) then (x, Err TypeErr) else run_add r x v types_ name desc cb
+  | A_value_not_none :: r =>
+      match v with None => (x, Err ValueErr) | Some _ => run_add r x v types_ name desc cb end
+  | A_name_valid :: r =>
+      if negb (valid_name name) then (x, Err ValueErr) else run_add r x v types_ name desc cb
+  | A_callback_callable :: r =>
+      if match cb with BadCb => true | _ => false end then (x, Err TypeErr) else run_add r x v types_ name desc cb
+  | A_no_conflict :: r =>
+      if existsb (taken (res x) name) types_ then (x, Err Conflict) else run_add r x v types_ name desc cb
+  | A_insert :: r =>
+      match v with
+      | Some n => run_add r (set_res x (ins_all types_ name (Cont (Static n) types_ name desc false) (res x)))
+                          v types_ name desc cb
+      | None => run_add r x v types_ name desc cb
+      end
+  | A_register_callback :: r =>
+      match cb with
+      | BadCb => (x, Err TypeErr)            (* add_teardown_callback rejects it *)
+      | Cb i => run_add r (set_td x (td x ++ [i])) v types_ name desc cb
+      | _ => run_add r x v types_ name desc cb
+      end
+  | A_dispatch :: r =>
+      run_add r (set_evlog x (evlog x ++ [REv types_ name desc false])) v types_ name desc cb
+  end.
+
+Fixpoint run_addfac (st : list fac_stage) (x : ctx) (f : nat) (kind : fkind) (name : string) (types : list ty)
+                    (desc : option nat) : ctx * out :=
+  match st with
+  | [] => (x, OK)
+  | F_name_valid :: r =>
+      if negb (valid_name name) then (x, Err ValueErr) else run_addfac r x f kind name types desc
+  | F_types_known :: r =>
+      match types with [] => (x, Err ValueErr) | _ => run_addfac r x f kind name types desc end
+  | F_none_type :: r =>
+      if existsb ty_is_none types then (x, Err TypeErr) else run_addfac r x f kind name types desc
+  | F_no_conflict :: r =>
+      if existsb (taken (facs x) name) types then (x, Err Conflict) else run_addfac r x f kind name types desc
+  | F_insert :: r =>
+      run_addfac r (set_facs x (ins_all types name (Fac f kind types name desc) (facs x))) f kind name types desc
+  | F_dispatch :: r =>
+      run_addfac r (set_evlog x (evlog x ++ [REv types name desc true])) f kind name types desc
+  end.
+
 Definition local_step (a : action) (x : ctx) : ctx * out :=
   if negb (in_states (life x) (allowed a)) then (x, Err RuntimeErr) else
   match a with
@@ -235,32 +288,9 @@ Definition local_step (a : action) (x : ctx) : ctx * out :=
       | _ => (x, Invalid)
       end
   | AAddResource v vty name types desc cb =>
-      let types_ := eff_types types vty in
-      if negb (forallb ty_is_class types_) then (x, Err TypeErr) else
-      match v with
-      | None => (x, Err ValueErr)
-      | Some n =>
-          if negb (valid_name name) then (x, Err ValueErr) else
-          if match cb with BadCb => true | _ => false end then (x, Err TypeErr) else
-          if existsb (taken (res x) name) types_ then (x, Err Conflict) else
-          let c := Cont (Static n) types_ name desc false in
-          (set_evlog (set_td (set_res x (ins_all types_ name c (res x)))
-                             (match cb with Cb i => td x ++ [i] | _ => td x end))
-                     (evlog x ++ [REv types_ name desc false]),
-           OK)
-      end
+      run_add add_resource_stages x v (eff_types types vty) name desc cb
   | AAddFactory f kind name types desc =>
-      if negb (valid_name name) then (x, Err ValueErr) else
-      match types with
-      | [] => (x, Err ValueErr)       (* no types given and no return annotation *)
-      | _ =>
-          if existsb ty_is_none types then (x, Err TypeErr) else
-          if existsb (taken (facs x) name) types then (x, Err Conflict) else
-          let fc := Fac f kind types name desc in
-          (set_evlog (set_facs x (ins_all types name fc (facs x)))
-                     (evlog x ++ [REv types name desc true]),
-           OK)
-      end
+      run_addfac add_factory_stages x f kind name types desc
   | AGetNowait t name optional =>
       match find (t, name) (res x) with
       | Some c => (x, Val (cvalue c))
